@@ -5,6 +5,7 @@ package gen
 
 import (
 	"fmt"
+	"sort"
 	"strconv"
 	"strings"
 
@@ -621,5 +622,36 @@ func (g *G) Request() types.Request {
 		Action:    types.NewEntityUID("Action", types.String(pick(g, IDs))),
 		Resource:  g.UID(),
 		Context:   g.Record(2),
+	}
+}
+
+// Canon renders a value in a canonical form of the harness' own: set members sorted by
+// their rendering, record keys sorted.  Two values are Equal iff their Canon strings are
+// equal (scalars render through MarshalCedar, which is injective per type).
+func Canon(v types.Value) string {
+	switch t := v.(type) {
+	case types.Set:
+		var parts []string
+		for m := range t.All() {
+			parts = append(parts, Canon(m))
+		}
+		sort.Strings(parts)
+		return "[" + strings.Join(parts, ", ") + "]"
+	case types.Record:
+		var keys []string
+		for k := range t.Keys() {
+			keys = append(keys, string(k))
+		}
+		sort.Strings(keys)
+		var parts []string
+		for _, k := range keys {
+			x, _ := t.Get(types.String(k))
+			parts = append(parts, strconv.Quote(k)+": "+Canon(x))
+		}
+		return "{" + strings.Join(parts, ", ") + "}"
+	case nil:
+		return "<nil>"
+	default:
+		return fmt.Sprintf("%T(%s)", v, v.MarshalCedar())
 	}
 }
